@@ -1,5 +1,5 @@
 #!/usr/bin/env python3
-"""asmfacts.py <repo> <out.lean>
+"""asmfacts.py <repo> <out.lean> [<dir for the generated Go stubs of harness/cmd/asmstep>]
 
 Translator for C13: reads the amd64 assembly kernels the build selects and emits, per TEXT symbol and label,
 the sequence of (mnemonic, integer operands) — immediates, displacements and scales, in source order;
@@ -305,6 +305,90 @@ WRAPPERS = [("internal/bytealg/indexbyte_go122_amd64.s", "IndexByte"),
             ("internal/bytealg/count_go122_amd64.s", "CountString")]
 
 
+SKIP_FORMS = (".J", ".RET", ".TAIL", ".MOVOU", ".VMOVDQU", ".MOVQst", ".MOVQimm", ".MOVQarg", ".MOVBarg", ".LEAQret",
+              ".CMPBavx2", ".CMPBpopcnt", ".STUCK")
+GPRS = ["AX", "BX", "CX", "DX", "SI", "DI", "R8", "R10", "R11", "R12", "R13"]
+
+
+def step_forms(repo):
+    """the distinct register-to-register instruction forms of the bodies and wrappers, in first-use order:
+    (Lean term, assembler text)"""
+    forms = {}
+    for f, sym in BODIES + WRAPPERS:
+        cur = ""
+        for raw in open(os.path.join(repo, f), encoding="utf-8"):
+            line = raw.split("//")[0].strip()
+            if not line or line.startswith("#"):
+                continue
+            m = re.match(r"TEXT\s+([^\s(]+)\(SB\)", line)
+            if m:
+                cur = m.group(1).replace("\u00b7", "").replace("<>", "")
+                continue
+            if cur != sym or re.match(r"^([A-Za-z_][\w]*):$", line):
+                continue
+            parts = line.split(None, 1)
+            if parts[0] == "PCALIGN":
+                continue
+            try:
+                ast = instr_ast(parts[0], parts[1] if len(parts) > 1 else "")
+            except ValueError:
+                continue
+            if ast.startswith(SKIP_FORMS):
+                continue
+            forms.setdefault(ast, (parts[0] + " " + re.sub(r"\s+", " ", parts[1] if len(parts) > 1 else "")).strip())
+    return list(forms.items())
+
+
+def go_stubs(forms, outdir):
+    """one assembly stub per instruction form: load the whole register state from *State, execute the instruction exactly as
+    written in the kernel source, store ZF / CF / signed-less and the whole state back"""
+    s = ["// Code generated by /verif/tools/asmfacts.py from the repository's .s files. DO NOT EDIT.",
+         "//go:build amd64", "", '#include "textflag.h"', ""]
+    for n, (ast, txt) in enumerate(forms):
+        s.append("// %s" % ast)
+        s.append("TEXT \u00b7form%d(SB), NOSPLIT, $0-8" % n)
+        s.append("\tMOVQ st+0(FP), R15")
+        for k in range(6):
+            s.append("\tVMOVDQU %d(R15), Y%d" % (160 + 32 * k, k + 1))
+        for k in range(3):
+            s.append("\tMOVOU %d(R15), X%d" % (96 + 16 * k, k))
+        for k, r in enumerate(GPRS):
+            s.append("\tMOVQ %d(R15), %s" % (8 * k, r))
+        s.append("\t" + txt)
+        s.append("\tSETEQ 352(R15)")
+        s.append("\tSETCS 353(R15)")
+        s.append("\tSETLT 354(R15)")
+        for k, r in enumerate(GPRS):
+            s.append("\tMOVQ %s, %d(R15)" % (r, 8 * k))
+        for k in range(3):
+            s.append("\tMOVOU X%d, %d(R15)" % (k, 96 + 16 * k))
+        for k in range(6):
+            s.append("\tVMOVDQU Y%d, %d(R15)" % (k + 1, 160 + 32 * k))
+        s.append("\tVZEROUPPER")
+        s.append("\tRET")
+        s.append("")
+    g = ["// Code generated by /verif/tools/asmfacts.py from the repository's .s files. DO NOT EDIT.",
+         "//go:build amd64", "", "package main", ""]
+    for n in range(len(forms)):
+        g.append("//go:noescape")
+        g.append("func form%d(st *State)" % n)
+    g.append("")
+    g.append("var forms = []form{")
+    for n, (ast, txt) in enumerate(forms):
+        g.append("\t{%s, %s, form%d}," % (json_str(txt), json_str(ast), n))
+    g.append("}")
+    for name, lines in (("forms_amd64.s", s), ("forms_amd64.go", g)):
+        text = "\n".join(lines) + "\n"
+        path = os.path.join(outdir, name)
+        if not (os.path.exists(path) and open(path, encoding="utf-8").read() == text):
+            open(path, "w", encoding="utf-8").write(text)
+
+
+def json_str(x):
+    import json
+    return json.dumps(x)
+
+
 def lean_int(i):
     return str(i) if i >= 0 else "(%d)" % i
 
@@ -352,6 +436,13 @@ def main():
         w.append("open _root_.Asm.Instr _root_.Asm.Reg _root_.Asm.XReg in")
         w.append("def pre122_wrap_%s : _root_.Asm.Prog := %s" % (sym, lit))
         pairs.append(("pre122_wrap_%s" % sym, "wrap_%s" % sym))
+    forms = step_forms(repo)
+    w.append("open _root_.Asm.Instr _root_.Asm.Reg _root_.Asm.XReg _root_.Asm.YReg in")
+    w.append("/-- the distinct register-to-register instruction forms of the bodies and wrappers (source text, term), in first-use order: the")
+    w.append("    stubs of harness/cmd/asmstep execute each on the hardware, the driver op `step` runs `Asm.step` on the same state -/")
+    w.append("def stepForms : Array (String \u00d7 _root_.Asm.Instr) := #[%s]" % ", ".join('(%s, %s)' % (json_str(txt), ast) for ast, txt in forms))
+    if len(sys.argv) > 3:
+        go_stubs(forms, sys.argv[3])
     w.append("/-- (program of the pre-go1.22 file, program of the go1.22 file) for every body and wrapper -/")
     w.append("def pre122_pairs : List (_root_.Asm.Prog × _root_.Asm.Prog) := [%s]" % ", ".join("(%s, %s)" % p for p in pairs))
     w.append("end Gen.Asm")
